@@ -306,6 +306,33 @@ theorem C12_no_shared_state (e : Exp) (hc hc' : HeaderCrypto) :
             simp only [Out.bind_ok, Out.pure_eq, Out.ok.injEq, Prod.mk.injEq] at h1
             rw [← h1.1]
 
+/-- **the same for the four Read / Write wrappers of the combined object** (`HeaderCrypto::
+    {write_encrypted_server_header, write_encrypted_client_header, read_and_decrypt_server_header,
+    read_and_decrypt_client_header}`), for every writer / reader script and whatever the `io::Result`:
+    writing never changes the decrypting half, reading never changes the encrypting half -/
+theorem C12_no_shared_state_io (e : Exp) (hc : HeaderCrypto) :
+    (∀ s o w R, hc.writeServerHeader e s o w = .ok R → R.state.decrypt = hc.decrypt) ∧
+    (∀ s o w R, hc.writeClientHeader e s o w = .ok R → R.state.decrypt = hc.decrypt) ∧
+    (∀ script R, hc.readServerHeader e script = .ok R → R.state.encrypt = hc.encrypt) ∧
+    (∀ script R, hc.readClientHeader e script = .ok R → R.state.encrypt = hc.encrypt) := by
+  refine ⟨fun s o w R h => ?_, fun s o w R h => ?_, fun sc R h => ?_, fun sc R h => ?_⟩
+  · unfold HeaderCrypto.writeServerHeader at h
+    cases h1 : hc.encrypt.writeServerHeader e s o w with
+    | panic p => rw [h1] at h; simp at h
+    | ok r => rw [h1] at h; simp only [Out.bind_ok, Out.pure_eq, Out.ok.injEq] at h; rw [← h]
+  · unfold HeaderCrypto.writeClientHeader at h
+    cases h1 : hc.encrypt.writeClientHeader e s o w with
+    | panic p => rw [h1] at h; simp at h
+    | ok r => rw [h1] at h; simp only [Out.bind_ok, Out.pure_eq, Out.ok.injEq] at h; rw [← h]
+  · unfold HeaderCrypto.readServerHeader at h
+    cases h1 : hc.decrypt.readServerHeader e sc with
+    | panic p => rw [h1] at h; simp at h
+    | ok r => rw [h1] at h; simp only [Out.bind_ok, Out.pure_eq, Out.ok.injEq] at h; rw [← h]
+  · unfold HeaderCrypto.readClientHeader at h
+    cases h1 : hc.decrypt.readClientHeader e sc with
+    | panic p => rw [h1] at h; simp at h
+    | ok r => rw [h1] at h; simp only [Out.bind_ok, Out.pure_eq, Out.ok.injEq] at h; rw [← h]
+
 /-- the same for the two Wrath pairs, on the operations of the histories above and on the typed
     header helpers: a call on one half returns a pair whose other half is the old one -/
 theorem C12_no_shared_state_wrath :
@@ -432,3 +459,5 @@ theorem C12_static_facts : Gen.forbidUnsafe = true ∧ Gen.headerModulesHaveNoSh
   decide
 
 end WowSrp
+
+#print axioms WowSrp.C12_no_shared_state_io
